@@ -39,7 +39,9 @@ func (env *c18Env) check(s *specs.Spec) (msg string, generatorBug bool) {
 				return
 			}
 			if _, err := cdi.ReadSpec(filepath.Join(dir, "plain", n), 0); err != nil {
-				msg, generatorBug = fmt.Sprintf("the library cannot read back %s without any validator: %v", n, err), true
+				// the library accepted the Spec for writing, so it is library-valid; the file it wrote is refused
+				// even by the reader without any validator, let alone the schema-checking one
+				msg = fmt.Sprintf("WriteSpec accepted the Spec, but the %s it wrote is refused by the reader (no validator installed): %v", n, err)
 				return
 			}
 		}
@@ -63,8 +65,14 @@ func (env *c18Env) check(s *specs.Spec) (msg string, generatorBug bool) {
 				msg = fmt.Sprintf("with the builtin schema installed, the written %s is refused by the reader: %v\nfile: %s", n, err, clip(string(data), 1200))
 				return
 			}
-			if specImage(rs.Spec) != specImage(s) {
-				msg = fmt.Sprintf("%s reads back different: %s", n, firstDiff(specImage(s), specImage(rs.Spec)))
+			// (bytes that are not valid UTF-8 are written as U+FFFD: compare with the Spec as any file can hold it)
+			want := specImage(s)
+			var asWritten specs.Spec
+			if json.Unmarshal([]byte(want), &asWritten) == nil {
+				want = specImage(&asWritten)
+			}
+			if specImage(rs.Spec) != want {
+				msg = fmt.Sprintf("%s reads back different: %s", n, firstDiff(want, specImage(rs.Spec)))
 				return
 			}
 			if err := schema.BuiltinSchema().ValidateFile(p); err != nil {
@@ -149,17 +157,94 @@ func TestC18Regress(t *testing.T) {
 	env := &c18Env{base: t.TempDir()}
 	for _, rc := range loadRegressions(t, "C18") {
 		var s specs.Spec
-		if err := json.Unmarshal(rc.Case, &s); err != nil {
+		if rc.Kind == "big-annotation" {
+			var b c18Big
+			if err := json.Unmarshal(rc.Case, &b); err != nil {
+				t.Fatalf("bad C18 regression: %v", err)
+			}
+			s = *b.spec()
+		} else if err := json.Unmarshal(rc.Case, &s); err != nil {
 			t.Fatalf("bad C18 regression: %v", err)
 		}
 		msg, genBug := env.check(&s)
+		if genBug && rc.Kind == "big-annotation" {
+			// the library refuses it for writing: nothing is claimed about it
+			rec.Case(true, string(rc.Case), func() any { return rc.Case }, "regression", "refused-by-the-library")
+			continue
+		}
 		if genBug {
 			t.Fatalf("C18 regression [%s] is not library-valid: %s", rc.Note, msg)
 		}
 		if msg != "" {
-			p := saveReplay("C18", "spec", json.RawMessage(specImage(&s)))
-			t.Fatalf("C18 violated on regression [%s]: %s\nreplay: %s", rc.Note, msg, p)
+			p := saveReplay("C18", rc.Kind, rc.Case)
+			t.Fatalf("C18 violated on regression [%s]: %s\nreplay: %s", rc.Note, clip(msg, 800), p)
 		}
-		rec.Case(true, specImage(&s), func() any { return json.RawMessage(specImage(&s)) }, "regression")
+		rec.Case(true, string(rc.Case), func() any { return rc.Case }, "regression")
+	}
+}
+
+// big annotation values: the unit repeated, and how many bytes one unit takes in the written file
+// (bytes that are not valid UTF-8 are written as U+FFFD, three bytes each).
+var c18Fills = []struct {
+	name    string
+	unit    string
+	written int
+}{{"ascii", "a", 1}, {"invalid-utf8-byte", "\xff", 3}, {"two-byte-rune", "\u00e9", 2}, {"truncated-rune", "\xe2\x82", 6}, {"nul", "\x00", 1}}
+
+const c18BigKey = "vendor.com/blob"
+
+type c18Big struct {
+	Fill  string `json:"fill"`
+	Units int    `json:"units"`
+	Where string `json:"where"` // spec or device
+}
+
+func (b c18Big) spec() *specs.Spec {
+	unit := "a"
+	for _, f := range c18Fills {
+		if f.name == b.Fill {
+			unit = f.unit
+		}
+	}
+	val := strings.Repeat(unit, b.Units)
+	s := &specs.Spec{Version: "0.6.0", Kind: "vendor.com/class", Devices: []specs.Device{{Name: "d0", ContainerEdits: specs.ContainerEdits{Env: []string{"A=1"}}}}}
+	if b.Where == "spec" {
+		s.Annotations = map[string]string{c18BigKey: val}
+	} else {
+		s.Devices[0].Annotations = map[string]string{c18BigKey: val}
+	}
+	return s
+}
+
+// TestC18BigAnnotations: annotation sets around the total-size limit of
+// 256 KiB, with values whose written form is longer than the value itself.
+// Whatever the library accepts for writing must still satisfy every clause.
+func TestC18BigAnnotations(t *testing.T) {
+	rec := stats.For("C18", "big-annotations")
+	env := &c18Env{base: t.TempDir()}
+	const limit = 256 * 1024
+	for _, f := range c18Fills {
+		for _, where := range []string{"spec", "device"} {
+			// unit counts that put the value just below / at / above the limit, as given and as written
+			var counts []int
+			for _, per := range []int{len(f.unit), f.written} {
+				n := (limit - len(c18BigKey)) / per
+				counts = append(counts, n-1, n, n+1, n+2)
+			}
+			counts = append(counts, 1000)
+			for _, n := range counts {
+				c := c18Big{Fill: f.name, Units: n, Where: where}
+				msg, refused := env.check(c.spec())
+				if refused {
+					rec.Case(true, canonJSON(c), func() any { return c }, "big-annotations", "refused-by-the-library", "fill:"+f.name)
+					continue
+				}
+				if msg != "" {
+					p := saveReplay("C18", "big-annotation", c)
+					t.Fatalf("C18 violated: %s\ncase: annotation %s = %d x %q at %s level (%d bytes as given, %d bytes as written)\nreplay: %s", clip(msg, 600), c18BigKey, n, f.unit, where, n*len(f.unit), n*f.written, p)
+				}
+				rec.Case(true, canonJSON(c), func() any { return c }, "big-annotations", "accepted-by-the-library", "fill:"+f.name)
+			}
+		}
 	}
 }
